@@ -442,6 +442,12 @@ def c01_diagnose(row, clause, orientation):
     if a is None:
         return "unlocated"
     nonempty = [i for i, prs, _ in segs if prs]
+    geo = ""
+    if a[0] != b[0]:
+        # do the two segments that hold the offending pairs overlap on the reference?
+        ra = [pr[0] for pr in segs[a[0]][1]]
+        rb = [pr[0] for pr in segs[b[0]][1]]
+        geo = "|refs-overlap" if max(min(ra), min(rb)) <= min(max(ra), max(rb)) else "|refs-disjoint"
     if a[0] == b[0]:
         rel = "within-one-segment"
     else:
@@ -454,7 +460,7 @@ def c01_diagnose(row, clause, orientation):
             rel = "neighbours-of-an-emptied-segment"
         else:
             rel = "consecutive-segments"
-    return rel
+    return rel + geo
 
 
 # ----------------------------------------------------------------------------------------------------------
